@@ -47,7 +47,7 @@ func (c RawConfiguration) QuorumCall(ctx context.Context, d QuorumCallData) (res
 
 	for {
 		if len(errs)+len(replies) == expectedReplies {
-			return resp, QuorumCallError{cause: Incomplete, errors: errs, replies: len(replies)}
+			return resp, QuorumCallError{cause: incompleteCause(ctx), errors: errs, replies: len(replies)}
 		}
 		select {
 		case r := <-replyChan:
